@@ -318,6 +318,33 @@ fn compare_obs(t: &mut Tally, case: &Value, board: &Board, exp: &Value, moved: b
             }
         }
     }
+    // every generated move must be confirmed by is_legal and accepted by the checked operations
+    // (cheap, so it is done on every position; the full sweep over all 20480 triples is sampled)
+    {
+        let mut refused = vec![];
+        for &c in &got {
+            let m = decode(c);
+            let mut copy = *board;
+            if !board.is_legal(m) || board.move_new(m).is_none() || !copy.move_mut(m) {
+                refused.push(c);
+            }
+        }
+        if !refused.is_empty() {
+            t.mismatch("C01", "is_legal-refuses-generated-move", case, json!([]), json!(refused.clone()));
+            t.mismatch("C02", "checked-operation-refuses-generated-move", case, json!([]), json!(refused));
+        }
+    }
+    match build_messy_from_pos(&exp["pos"], board.zobrist() % 97) {
+        Err(e) => t.mismatch("C05", "builder-messy-rejects", case, exp["pos"].clone(), json!(e)),
+        Ok(built) => {
+            if built.zobrist() != board.zobrist() || built.verif_piece_hash() != board.verif_piece_hash() {
+                t.mismatch("C04", "builder-hash-after-refused-place-or-remove", case, obs["zob"].clone(), json!(limbs(built.zobrist())));
+            }
+            if !same_board(&built, board) {
+                t.mismatch("C05", "builder-messy-differs", case, exp["pos"].clone(), pos_json(&built));
+            }
+        }
+    }
     if probe {
         let p = probe_all(board);
         t.inc("probed_positions");
@@ -515,7 +542,12 @@ pub fn record_walk(opts: &Opts) -> i32 {
                 board = b;
             }
             let opname = ["new", "mut", "into"][which as usize];
-            let mut ev = json!({"ev": "move", "op": opname, "mv": c,
+            let refused_generated: Vec<u32> = if has_both_kings(&board) {
+                legal_codes(&board).into_iter().filter(|&x| !board.is_legal(decode(x)) || board.move_new(decode(x)).is_none()).collect()
+            } else {
+                vec![]
+            };
+            let mut ev = json!({"ev": "move", "op": opname, "mv": c, "refused_generated": refused_generated,
                                 "accepted": accepted, "untouched": untouched,
                                 "obs": obs_json(&board, true)});
             if probe_every > 0 && events % probe_every == 0 && has_both_kings(&board) {
